@@ -244,8 +244,17 @@ def run_history(claims: list[dict], *, eavesdrop: bool = False, max_zones: int |
         sch = gwy.schema
         err = validate(sch)
         view = schema_view(sch)
-        reloaded = await reload_view(sch, eavesdrop=eavesdrop, max_zones=max_zones,
-                                     known_list=config_known_list(gwy, known_list)) if reload_each and not err else {}
+        reloaded = {}
+        if reload_each and not err:
+            kl = config_known_list(gwy, known_list)
+            reloaded = await reload_view(sch, eavesdrop=eavesdrop, max_zones=max_zones, known_list=kl)
+            if kl and "error" not in reloaded:
+                # ... and the schema alone (saved without the known_list's class hints) must do as well
+                alone = await reload_view(sch, eavesdrop=eavesdrop, max_zones=max_zones, known_list=None)
+                if "error" in alone:
+                    alone["error"] += " [schema fed back without the known_list]"
+                if alone != reloaded:
+                    reloaded = alone
         tap.recs = []
         step = {"claim": what, "graph": graph(gwy), "view": view, "valid_err": err, "reload": reloaded,
                 "loop_exc": excs, "logs": logs[:6], "faked": faked_ids(gwy), "api_exc": api_exc[:4]}
